@@ -74,6 +74,29 @@ def make_layout(root, i, it):
         src = hdr + ["int before;", inc, "int after;"] + callers("m")
         open(os.path.join(d, "m.c"), "w").write("\n".join(src) + "\n")
         line, prog = hline, base + "/m.c"
+    elif kind in ("inc_2nd", "inc2_2nd", "after_2inc"):
+        # several #include lines in ONE file: the failing statement is in the second header / right after the second include
+        open(os.path.join(d, "h0.h"), "w").write("// first header\nint h0v1;\nint h0v2;\nint h0fn() { return 2; }\n")
+        if kind == "after_2inc":
+            open(os.path.join(d, "h1.h"), "w").write("// second header\nint h1v;\n" + "\n" * extra)
+            src = hdr + ["int before;", '#include "/%s/h0.h"' % base, "int between1;", "int between2;", '#include "/%s/h1.h"' % base] + fl + callers("m")
+            line = len(hdr) + 5 + fidx + 1
+            exp_file = base + "/m.c"
+        elif kind == "inc_2nd":
+            h = ["// second header"] + blank + fl
+            open(os.path.join(d, "h1.h"), "w").write("\n".join(h) + "\n")
+            src = hdr + ["int before;", '#include "/%s/h0.h"' % base, "int between1;", "int between2;", '#include "/%s/h1.h"' % base, "int after;"] + callers("m")
+            line = 1 + extra + fidx + 1
+            exp_file = base + "/h1.h"
+        else:     # the two includes are inside an outer header
+            h = ["// inner second header"] + blank + fl
+            open(os.path.join(d, "h2.h"), "w").write("\n".join(h) + "\n")
+            open(os.path.join(d, "h1.h"), "w").write("// outer header\nint h1dummy;\n#include \"/%s/h0.h\"\nint h1mid;\n#include \"/%s/h2.h\"\nint h1after;\n" % (base, base))
+            src = hdr + ["int before;", '#include "/%s/h1.h"' % base, "int after;"] + callers("m")
+            line = 1 + extra + fidx + 1
+            exp_file = base + "/h2.h"
+        open(os.path.join(d, "m.c"), "w").write("\n".join(src) + "\n")
+        prog = base + "/m.c"
     elif kind == "after_inc":
         open(os.path.join(d, "h1.h"), "w").write("// header\nint hv1;\nint hv2;\nint hfn() { return 1; }\n" + "\n" * extra)
         src = hdr + ['#include "/%s/h1.h"' % base] + fl + callers("m")
@@ -103,6 +126,12 @@ def run(tier, work):
     t0 = time.time()
     exe = build.ensure_harness("vdrv", ["vdrv.cpp"])
     verdict = vlib.Verdict(PROP)
+    lx = vlib.model_check(SPEC, "LexSegs", "MCLex.cfg", work, "p1l", timeout=900)
+    lxm = vlib.model_check(SPEC, "LexSegs", "MCLexMut.cfg", work, "p1lm", timeout=900)
+    print("TLC P1 LexSegs (segments written by the lexer, several includes per file): %d states, %s; with the saved point reset before the save: %s" %
+          (lx["states"], "ok" if lx["ok"] else "VIOLATED", "ok" if lxm["ok"] else "violated, as required"))
+    if not lx["ok"] or lxm["ok"]:
+        raise vlib.Broken("LexSegs: the model as written must hold and its weakening must be violated")
     mc = vlib.model_check(SPEC, "LineMapImpl", "MCImpl.cfg", work, "p1", timeout=1500)
     print("TLC P1 LineMapImpl: %d states, %d transitions, %s" % (mc["states"], mc["transitions"], "ok" if mc["ok"] else "VIOLATED"))
     if not mc["ok"]:
